@@ -211,6 +211,7 @@ def moments_part(ck, tier):
         cases += explore(ck, "moments", 7, "MCCm", "MCKm", "kde_moments_7")
     rng = np.random.default_rng(seed() + 15)
     interval_events, interval_idents = [], []
+    cases = sorted(cases, key=lambda c: (json.dumps(c["hs"]), c["k"]))          # (TLC's workers print in no fixed order: the selection below must not depend on it)
     for ci, c in enumerate(cases):
         hs, k = c["hs"], c["k"]
         factor = int(rng.choice([3, 12, 60])) if tier == "thorough" else 3
@@ -220,7 +221,7 @@ def moments_part(ck, tier):
         S, Ku = SL.value(c["skew"]), c["kurt"][0] / c["kurt"][1]
         sd = math.sqrt(V)
         results = {}
-        for a_log2, b_sd in (AFFINE if (tier == "thorough" or ci % 4 == 0) else AFFINE[:4:3]):
+        for a_log2, b_sd in (AFFINE if (tier == "thorough" or ci % 4 == 0) else [AFFINE[0], AFFINE[1], AFFINE[3]]):
             a = 2.0 ** a_log2
             b = b_sd * sd * a
             sample = a * base + b
